@@ -213,9 +213,16 @@ class HDict(HObjBase):
         self.entries = dict(entries or {})
         self.each = list(each or [])
         self.sym = sym
+        self.default_factory = None  # collections.defaultdict: the callable that makes the value of a missing key
 
     def clone(self):
-        return HDict(self.entries, self.each, self.sym)
+        d = HDict(self.entries, self.each, self.sym)
+        d.default_factory = self.default_factory
+        if hasattr(self, "symkeys"):
+            d.symkeys = dict(self.symkeys)
+        if hasattr(self, "shared"):
+            d.shared = self.shared
+        return d
 
 
 class HObj(HObjBase):
